@@ -533,6 +533,7 @@ type fieldStore struct {
 	Field *types.Var
 	Val   ssa.Value
 	Store *ssa.Store
+	Bind  *tableBinding // set when the store is the body of a loop over a constant local table: the row it stands for
 }
 
 func (pf *parserFacts) fieldStores(typ string) []fieldStore {
@@ -556,7 +557,13 @@ func (pf *parserFacts) fieldStores(typ string) []fieldStore {
 			if fr := fa.Referrers(); fr != nil {
 				for _, rr := range *fr {
 					if st, ok := rr.(*ssa.Store); ok && st.Addr == fa && owner == typ {
-						out = append(out, fieldStore{lit, f, st.Val, st})
+						out = append(out, fieldStore{lit, f, st.Val, st, nil})
+					}
+					// the field's address is a row entry of a constant local table: the loop over the table stores through it
+					if st, ok := rr.(*ssa.Store); ok && st.Val == fa && owner == typ {
+						for _, ts := range pf.tableStoresThrough(st) {
+							out = append(out, fieldStore{lit, f, ts.Val, ts.Store, ts.Bind})
+						}
 					}
 				}
 			}
@@ -585,6 +592,50 @@ func (pf *parserFacts) fieldStores(typ string) []fieldStore {
 	return out
 }
 
+// tableStoresThrough: st puts the address of a destination field into row i, column k of a constant local table; the
+// stores `*e.k = v` in loops over that table are, for row i, stores into that field.
+func (pf *parserFacts) tableStoresThrough(st *ssa.Store) []fieldStore {
+	fa, ok := st.Addr.(*ssa.FieldAddr)
+	if !ok {
+		return nil
+	}
+	fn := st.Parent()
+	var out []fieldStore
+	for _, b := range fn.Blocks {
+		for _, in := range b.Instrs {
+			a, isAlloc := in.(*ssa.Alloc)
+			if !isAlloc {
+				continue
+			}
+			ct, ok := constTableOf(a)
+			if !ok {
+				continue
+			}
+			row := -1
+			for i, r := range ct.rows {
+				if r[fa.Field] == st.Val {
+					row = i
+				}
+			}
+			if row < 0 {
+				continue
+			}
+			for _, b2 := range fn.Blocks {
+				for _, in2 := range b2.Instrs {
+					s2, isSt := in2.(*ssa.Store)
+					if !isSt {
+						continue
+					}
+					if ta, k, ok := elemFieldOf(s2.Addr); ok && ta == a && k == fa.Field {
+						out = append(out, fieldStore{Val: s2.Val, Store: s2, Bind: &tableBinding{a, row}})
+					}
+				}
+			}
+		}
+	}
+	return out
+}
+
 // semantic bounds of destination fields (R10.2)
 var configBounds = map[string]rng{
 	"Key.Note": {0, 127}, "Key.ChannelOffset": {0, 15},
@@ -607,6 +658,35 @@ func (pf *parserFacts) checkBounds(typ, field string) []boundResult {
 			continue
 		}
 		ok, why := pf.proveRange(fs.Val, fs.Store.Block(), r.lo, r.hi, 0)
+		if !ok {
+			// the entry may be filled in first and validated afterwards (the result is built right after decoding, the checks
+			// follow): what counts is that the bound holds wherever the function hands out a configuration, i.e. at every
+			// return whose error is nil (error returns hand out the zero Config, R10.5)
+			fn := fs.Store.Parent()
+			n, all := 0, true
+			var w2 string
+			for _, b := range fn.Blocks {
+				ret, isRet := b.Instrs[len(b.Instrs)-1].(*ssa.Return)
+				if !isRet || b == fn.Recover || len(ret.Results) == 0 {
+					continue
+				}
+				if k, isK := ret.Results[len(ret.Results)-1].(*ssa.Const); !isK || k.Value != nil {
+					continue
+				}
+				if !fs.Store.Block().Dominates(b) {
+					continue
+				}
+				n++
+				if ok2, why2 := pf.proveRange(fs.Val, b, r.lo, r.hi, 0); !ok2 {
+					all = false
+				} else {
+					w2 = why2
+				}
+			}
+			if n > 0 && all {
+				ok, why = true, "validated before the configuration is handed out: "+w2
+			}
+		}
 		out = append(out, boundResult{
 			Key: fmt.Sprintf("config.ParseData/%s{%s}[%s]", typ, field, pf.storeContext(fs)),
 			Pos: pf.p.Pos(fs.Store.Pos()), Why: why, OK: ok,
